@@ -253,7 +253,10 @@ class Tokenizer:
             if filename is None:
                 filename = "<string>"
         elif isinstance(f, bytes):
-            f = io.StringIO(f.decode())
+            try:
+                f = io.StringIO(f.decode())
+            except UnicodeDecodeError:
+                raise dns.exception.SyntaxError("input is not valid UTF-8")
             if filename is None:
                 filename = "<string>"
         else:
@@ -284,7 +287,10 @@ class Tokenizer:
             if self.eof:
                 c = ""
             else:
-                c = self.file.read(1)
+                try:
+                    c = self.file.read(1)
+                except UnicodeDecodeError:
+                    raise dns.exception.SyntaxError("input is not valid UTF-8")
                 if c == "":
                     self.eof = True
                 elif c == "\n":
